@@ -605,8 +605,8 @@ func runC09(ctx *vh.Ctx) error {
 	nOpt, nTL, nErr, nCb, nFl := 0, 0, 0, 0, 0
 	// The families cbshare and inflight are dealt from a random stream of their OWN (a function of
 	// the seed only) and inserted between the cases of the main sequence, which therefore is the
-	// same sequence of cases whether or not they exist: first one cbshare case and the two big
-	// inflight cases (barrier, nested), then a cbshare case after every 7th case of the main
+	// same sequence of cases whether or not they exist: first one cbshare case, the two big
+	// inflight cases (barrier, nested) and the four hold-at cases, then a cbshare case after every 7th case of the main
 	// sequence and a small inflight case after every 35th.
 	xr := vh.NewRand(ctx.Seed*0x9E3779B97F4A7C15 + 0xC09CB)
 	extra := func(kind string) error {
@@ -621,7 +621,7 @@ func runC09(ctx *vh.Ctx) error {
 		}
 		return c09EvaluateX(ctx, &c)
 	}
-	for _, k := range []string{"cbshare", "inflight", "inflight"} {
+	for _, k := range []string{"cbshare", "inflight", "inflight", "inflight", "inflight", "inflight", "inflight"} {
 		if !ctx.TimeLeft() {
 			break
 		}
